@@ -340,6 +340,28 @@ def analyse(desc, ff, opts, s, r) -> Analysis:
             seen_groups[g] = entry
         A.residues.append(entry)
     A.by_group = seen_groups
+    # a cysteine whose SG was missing from the input gets its sulfur from repair_heavy; bridges are
+    # detected on the rebuilt position BEFORE debumping may turn the side chain again, so neither the
+    # input nor the final coordinates decide: for such a cysteine and for every cysteine whose sulfur
+    # is within reach of it (6.5 A of its CA) the expectation follows the model's own bridge flag
+    # (C13 decides these placements with a generator of its own)
+    sg = {(r_["group"][1], r_["group"][2]): r_["xyz"] for r_ in s.records if r_["name"] == "SG" and r_["group"][0] == "chain"}
+    rebuilt = {}
+    for g, entry in seen_groups.items():
+        if g[0] == "chain" and (g[1], g[2]) not in sg and "SG" in entry["atoms"] and "CA" in entry["atoms"]:
+            rebuilt[(g[1], g[2])] = np.array(entry["atoms"]["CA"].coords)
+    if rebuilt:
+        follow = set(rebuilt)
+        for k, xyz in sg.items():
+            if any(float(np.linalg.norm(xyz - ca)) < 6.5 for ca in rebuilt.values()):
+                follow.add(k)
+        for (ci, i) in follow:
+            entry = seen_groups.get(("chain", ci, i))
+            if entry is None:
+                continue
+            ch = desc["chains"][ci]
+            A.expected[(ci, i)] = topo.expected_state(ch["seq"][i], i == 0, i == len(ch["seq"]) - 1, neutraln="--neutraln" in opts,
+                                                      neutralc="--neutralc" in opts, ss=bool(getattr(entry["obj"], "ss_bonded", False)))  # fmt: skip
     for g in A.inp:
         if g not in seen_groups and not (g[0] == "water" and "--drop-water" in opts):
             A.problems.append(("C03:residue-lost", f"input residue {g} is not in the final model"))
